@@ -57,6 +57,35 @@ type SEmb struct {
 	Extra string `db:"extra"`
 }
 
+// SDeep: embedding four levels deep with several members at the deeper levels (index
+// paths of length 4 and 5).
+type SDGeo struct {
+	Zone string `db:"zone"`
+	Code int64  `db:"code"`
+}
+
+type SDCoords struct {
+	Lat float64 `db:"lat"`
+	Lon float64 `db:"lon"`
+	Alt int64   `db:"alt,omitempty"`
+	SDGeo
+}
+
+type SDLocation struct {
+	City string `db:"city"`
+	SDCoords
+}
+
+type SDContact struct {
+	Email string `db:"email"`
+	SDLocation
+}
+
+type SDeep struct {
+	ID int64 `db:"id"`
+	SDContact
+}
+
 type SIDs []int64
 
 type sqliteType struct {
@@ -72,6 +101,7 @@ var sqliteTypes = []sqliteType{
 	{reflect.TypeOf(SOmit2{}), []string{"cnt", "id", "note"}, "id INTEGER, note TEXT, cnt INTEGER"},
 	{reflect.TypeOf(SOmitPtr{}), []string{"cnt", "id", "label"}, "id INTEGER, cnt INTEGER, label TEXT"},
 	{reflect.TypeOf(SEmb{}), []string{"active", "data", "extra", "id", "name", "score"}, "id INTEGER, name TEXT, score REAL, data BLOB, active BOOLEAN, extra TEXT"},
+	{reflect.TypeOf(SDeep{}), []string{"alt", "city", "code", "email", "id", "lat", "lon", "zone"}, "id INTEGER, email TEXT, city TEXT, lat REAL, lon REAL, alt INTEGER, zone TEXT, code INTEGER"},
 }
 
 func fillSQLite(r *rng.R, v reflect.Value, id int64) {
